@@ -4,6 +4,7 @@ Verify.publish + gc; manifest: Dedup.new_backup; restore: Restore2.exec) and dir
 import calendar
 import json
 import os
+import re
 import shutil
 import stat
 import time
@@ -357,7 +358,15 @@ class World:
         return {"exit": rc, "errors": slevel.errors_of(out), "warnings": slevel.warnings_of(out), "out": out}
 
     def decode(self):
-        return self.sb.read_storage(self.st)
+        dec = self.sb.read_storage(self.st)
+        # the raw reader reports every directory of the root; only names of exactly the form YYYY.MM.DD are backup groups, any other directory
+        # is a foreign entry of the root (an "unexpected directory" to the listing), however much its name resembles a group's
+        if "groups" in dec:
+            foreign = [g for g in dec["groups"] if not re.fullmatch(r"\d{4}\.\d{2}\.\d{2}", g["name"])]
+            if foreign:
+                dec["groups"] = [g for g in dec["groups"] if g not in foreign]
+                dec["junk"] = sorted(dec.get("junk", []) + [{"name": g["name"], "dir": True} for g in foreign], key=lambda j: j["name"])
+        return dec
 
 
 # ---- decoded storage helpers -------------------------------------------------------------------------------------
@@ -682,6 +691,10 @@ class History:
             gone = [g for g, _, _, _ in lb if g not in [x for x, _, _, _ in la]]
             if gone:
                 self.violation("C07", "the run did not publish but groups %s were deleted" % gone)
+        # whatever else lies in the root (foreign files and directories, also ones whose names merely resemble group names) is not vsb's to delete
+        lost = [j for j in listing(before)[1] if j not in listing(after)[1]]
+        if lost:
+            self.violation("C07", "entries of the storage root that are not backup groups were deleted by the run: %s" % lost)
         # ---- per published backup: manifest / archive / C02 / C09 / C10 ----
         if published:
             tg = [g for g in after["groups"] if any(e["name"] == name for e in g["entries"])][0]
@@ -836,7 +849,7 @@ class History:
         rng = self.rng
         w = self.w
         la, _ = listing(self.dec)
-        k = rng.randrange(7)
+        k = rng.randrange(8)
         label = "none"
         if k == 0:
             open(os.path.join(w.st, rng.choice([".DS_Store", ".hidden"])), "w").close()
@@ -871,6 +884,15 @@ class History:
             if not os.path.exists(os.path.join(w.st, d)):
                 os.mkdir(os.path.join(w.st, d), 0o700)
                 label = "empty older group"
+        elif k == 7:
+            # a foreign directory whose name merely STARTS like a group name (a copy kept by hand, an editor's or sync tool's leftover);
+            # empty or holding only a dot-file, older than everything else
+            d = time.strftime("%Y.%m.%d", time.gmtime(self.now - rng.randrange(400, 900) * 86400)) + rng.choice([".old", "-copy", ".bak", "x", " (1)"])
+            if not os.path.exists(os.path.join(w.st, d)):
+                os.mkdir(os.path.join(w.st, d), 0o700)
+                if rng.random() < 0.5:
+                    open(os.path.join(w.st, d, ".note"), "w").close()
+                label = "foreign directory with a group-like prefix"
         if label != "none":
             self.debris_seeded = True
             self.dec = w.decode()
